@@ -7,7 +7,7 @@ use crate::ug::build::*;
 use serde_json::{Value, json};
 
 pub const RECEIVERS: [&str; 11] = ["int32", "string", "bool", "S", "E2", "Box[int32]", "Box[string]", "float64", "int8", "uint64", "unit"];
-pub const KINDS: [&str; 7] = ["inherent", "trait-one-impl", "trait-two-impls", "two-traits-same-name", "dyn-containers", "dyn-builtin-containers", "dyn-direct"];
+pub const KINDS: [&str; 8] = ["inherent", "trait-one-impl", "trait-two-impls", "two-traits-same-name", "dyn-containers", "dyn-builtin-containers", "dyn-direct", "coercion-in-receiver"];
 
 fn rty(name: &str) -> Ty {
     match name {
@@ -116,7 +116,7 @@ pub fn build(kind: &str, recv: &str, other: &str, nargs: usize) -> Option<Progra
             main.push(st(println(E::Inherent(type_head(recv).into(), "m".into(), CallForm::Dot, with(v(x), 1), targs.clone()))));
             main.push(st(println(E::Inherent(type_head(recv).into(), "m".into(), CallForm::Path, with(v(x), 1), targs))));
         }
-        "trait-one-impl" | "trait-two-impls" | "two-traits-same-name" | "dyn-containers" | "dyn-builtin-containers" | "dyn-direct" => {
+        "trait-one-impl" | "trait-two-impls" | "two-traits-same-name" | "dyn-containers" | "dyn-builtin-containers" | "dyn-direct" | "coercion-in-receiver" => {
             items.push(Item::Trait(trait_sig("Tr")));
             items.push(Item::Impl(ImplDef { generics: vec![], trait_name: Some("Tr".into()), for_ty: rty(recv), methods: vec![method_def(&mut n, "m", recv, nargs, "trA")] }));
             if kind != "trait-one-impl" {
@@ -197,6 +197,21 @@ pub fn build(kind: &str, recv: &str, other: &str, nargs: usize) -> Option<Progra
                         ],
                     ))));
                 }
+                if kind == "coercion-in-receiver" {
+                    // the receiver of a path-form call is itself a call whose arguments are coerced to dyn
+                    let (pd, pk) = (n.fresh("d"), n.fresh("k"));
+                    let mut inner = vec![v(pd)];
+                    inner.extend((0..nargs).map(|i| int(40 + i as i128)));
+                    items.push(fn_def(
+                        "through",
+                        vec![(pd, Ty::Dyn("Tr".into())), (pk, rty(recv))],
+                        Some(rty(recv)),
+                        block(vec![st(println(E::TraitCall("Tr".into(), "m".into(), CallForm::Path, inner, Ty::Dyn("Tr".into()))))], Some(v(pk))),
+                    ));
+                    let coerced = E::ToDyn("Tr".into(), Box::new(v(y)), rty(other));
+                    main.push(st(println(E::TraitCall("Tr".into(), "m".into(), CallForm::Path, with(call("through", vec![coerced.clone(), v(x)]), 7), rty(recv)))));
+                    main.push(st(println(callg("via_bound_path", vec![rty(recv)], with(call("through", vec![coerced, v(x)]), 8)))));
+                }
                 if kind == "dyn-direct" {
                     // the coerced expression is not a variable but a literal / constructor expression
                     // (generic instances excluded: their literal's type arguments are still open when the
@@ -244,6 +259,11 @@ fn negatives() -> Vec<(&'static str, String)> {
         ("unknown-method", format!("{}fn main() {{ let x = S {{ a: 1 }}; string_println(x.zzz()) }}\n", head)),
         ("method-value-standalone", format!("{}fn main() {{ let x = S {{ a: 1 }}; let f = x.m; string_println(\"x\") }}\n", head)),
         ("trait-path-wrong-type", format!("{}fn main() {{ string_println(Tr::m(N {{ a: 1 }})) }}\n", head)),
+        // one method name defined by two inherent impls that both apply to the receiver
+        ("inherent-generic-and-exact-impl", "struct Bx[T] { v: T }\nimpl[T] Bx[T] { fn m(self: Bx[T]) -> string { \"generic\" } }\nimpl Bx[int32] { fn m(self: Bx[int32]) -> string { \"exact\" } }\nfn main() { let b = Bx { v: 1 }; string_println(b.m() + Bx::m(b)) }\n".to_string()),
+        ("inherent-exact-and-generic-impl", "struct Bx[T] { v: T }\nimpl Bx[int32] { fn m(self: Bx[int32]) -> string { \"exact\" } }\nimpl[T] Bx[T] { fn m(self: Bx[T]) -> string { \"generic\" } }\nfn main() { let b = Bx { v: 1 }; string_println(b.m() + Bx::m(b)) }\n".to_string()),
+        ("inherent-same-method-in-two-blocks", "struct S { a: int32 }\nimpl S { fn m(self: S) -> string { \"one\" } }\nimpl S { fn m(self: S) -> string { \"two\" } }\nfn main() { let x = S { a: 1 }; string_println(x.m() + S::m(x)) }\n".to_string()),
+        ("inherent-same-method-in-two-generic-blocks", "struct Bx[T] { v: T }\nimpl[T] Bx[T] { fn m(self: Bx[T]) -> string { \"one\" } }\nimpl[U] Bx[U] { fn m(self: Bx[U]) -> string { \"two\" } }\nfn main() { let b = Bx { v: 1 }; string_println(b.m()) }\n".to_string()),
     ];
     // the same method name in two traits with every pair of arities 0..2 extra arguments, called in
     // dot form with every argument count that fits at least one of them: ambiguous, so rejected
@@ -281,7 +301,7 @@ impl Family for Methods {
         &["C17", "C01", "C02", "C03", "C04"]
     }
     fn rule(&self) -> &'static str {
-        "receiver types {int32,string,bool,S,E2,Box[int32],Box[string],float64,int8,uint64,unit} x 0-2 extra arguments x {inherent, trait with one impl, trait with impls for two receiver types, two traits with the same method name, dyn values through a destructured tuple, a struct field and an enum payload, a literal / constructor expression coerced to dyn directly, dyn values read back through array_get/vec_get (may be rejected: inference limitation, tagged)}; each program calls every applicable form (x.m(a), T::m(x,a), Tr::m(x,a), through a T: Tr bound in dot and path form, Tr::m(d,a) on the value coerced to dyn Tr) and prints each result; 8 + 30 negative programs (dyn coercion without impl, ambiguous method under two bounds/traits, unsatisfied bound, unknown method, standalone method value; the same method name in two traits at every pair of arities 0..2 called in dot form through two bounds and on a concrete receiver with every fitting argument count) that must be rejected with a diagnostic. non-trivial = programs with >= 2 impls; distinct = distinct source text"
+        "receiver types {int32,string,bool,S,E2,Box[int32],Box[string],float64,int8,uint64,unit} x 0-2 extra arguments x {inherent, trait with one impl, trait with impls for two receiver types, two traits with the same method name, dyn values through a destructured tuple, a struct field and an enum payload, a literal / constructor expression coerced to dyn directly, a path-form call whose receiver is a call with a dyn-coerced argument, dyn values read back through array_get/vec_get (may be rejected: inference limitation, tagged)}; each program calls every applicable form (x.m(a), T::m(x,a), Tr::m(x,a), through a T: Tr bound in dot and path form, Tr::m(d,a) on the value coerced to dyn Tr) and prints each result; 12 + 30 negative programs (one method name defined by two inherent impls applying to the same receiver (generic + exact instance, two blocks); dyn coercion without impl, ambiguous method under two bounds/traits, unsatisfied bound, unknown method, standalone method value; the same method name in two traits at every pair of arities 0..2 called in dot form through two bounds and on a concrete receiver with every fitting argument count) that must be rejected with a diagnostic. non-trivial = programs with >= 2 impls; distinct = distinct source text"
     }
     fn cases(&self, _tier: Tier) -> Box<dyn Iterator<Item = Value> + '_> {
         let mut v = Vec::new();
